@@ -10,7 +10,7 @@ import os
 from sim import devices
 from sim.canon import Log, dec_table, canon_rows
 from sim.core import outcome, ddmin_lists
-from sim.devices import SimTable, SimSourceError
+from sim.devices import SimTable, SimSourceError, SOURCE_ERROR_KINDS
 from sim.gen import gen_sort_table, FIELDS
 from sim.loader import load_petl
 from sim.models import ref_sort, ref_cat, resolve_key, row_key, ref_cmp
@@ -117,7 +117,8 @@ def gen_case(rng, tier, g):
         ni = len(tables[si]) - 1
         steps.insert(rng.randint(0, len(steps)),
                      ['ARM', si, rng.choice([1, 2, max(1, ni // 2), ni,
-                                             ni + 1]), 1])
+                                             ni + 1]), 1,
+                      rng.choice(SOURCE_ERROR_KINDS)])
     return {'prop': PROP, 'op': op, 'tables': tables, 'perms': perms,
             'key': key, 'reverse': rng.random() < 0.35,
             'buffersize': _bufsizes(rng, n0 if op == 'sort' else max(n0, 1)),
@@ -231,7 +232,9 @@ def _history(e, case, tables, expected, td, sb, log, probes):
             for op in case['steps']:
                 if op[0] == 'ARM':
                     if op[1] < len(srcs):
-                        srcs[op[1]].arm(op[2], passes=op[3])
+                        srcs[op[1]].arm(op[2], passes=op[3],
+                                         kind=op[4] if len(op) > 4
+                                         else 'plain')
                         log.add('step', op)
                     continue
                 if op[0] == 'ITER' and isinstance(view, psorts.SortView):
